@@ -184,6 +184,8 @@ def _sig(t, r, why):
         if why.startswith("accounting: len(samples"):
             return "samples-len:" + t["meta"].get("sim", "?")
         return f"end:{ev['status']}:{ev['exc']}"
+    if why.startswith("chain-rule: ") and "share one state object" in why:
+        return "aliased-branch-states:" + t["meta"].get("sim", "?") + ":" + why.split()[1]
     if why.startswith("chain-rule: ") and "not normalised projections" in why:
         return "unnormalised-branch-state:" + t["meta"].get("sim", "?") + ":" + why.split()[1]
     if why.startswith("chain-rule: "):
